@@ -99,8 +99,51 @@ def check_program(ctx, p, src, tag):
         ctx.feature(c)
 
 
+def reuse_parser(ctx, rng, parser_obj, p, src):
+    """History: the same Parser instance parses program after program (the class documents one instance per thread), with
+    failing parses in between; each valid program must still produce its tree."""
+    from pico8.lua import lexer, parser
+    case = {'src': src, 'tag': 'reused-parser', 'feats': sorted(p.feats)}
+    lx = lexer.Lexer(version=8)
+    lx.process_lines([src])
+    try:
+        parser_obj.process_tokens(lx.tokens)
+    except Exception as e:
+        ctx.violation('a reused Parser instance rejected a valid program: %s' % (e,), case)
+        return
+    ctx.monitor('reused_parser_parses')
+    root = parser_obj.root
+    rest = [t for t in lx.tokens[root.end_pos:] if not isinstance(t, (lexer.TokSpace, lexer.TokNewline, lexer.TokComment))]
+    if rest:
+        ctx.violation('a reused Parser instance stopped before the end (%d tokens left)' % len(rest), case)
+        return
+    d = ptree.first_diff(p.tree, ptree.norm_chunk(root))
+    if d:
+        ctx.violation('a reused Parser instance built a different tree: %s' % d, case)
+
+
+def poison_parser(rng, parser_obj, p):
+    """Feed the reused parser a broken variant of the program (errors are expected and ignored)."""
+    from pico8.lua import lexer
+    toks = list(p.toks)
+    if not toks:
+        return
+    cut = rng.randrange(len(toks))
+    broken = b' '.join(raw for k, raw in toks[:cut]) + rng.choice((b'\n', b' ( \n', b'\nend\n', b' ,\n'))
+    # the error often lands inside a one-line short-if body when the cut falls there
+    try:
+        lx = lexer.Lexer(version=8)
+        lx.process_lines([broken])
+        parser_obj.process_tokens(lx.tokens)
+    except Exception:
+        return True
+    return False
+
+
 def run_shard(spec, ctx):
     rng = ctx.rng
+    from pico8.lua import parser as _parser
+    shared = _parser.Parser(version=8)
     for i in range(spec['count']):
         depth = rng.choice((1, 2, 2, 3, 3)) if not spec.get('deep') else rng.choice((3, 4, 5))
         opts = {'depth': depth, 'max_stmts': 4 if depth <= 3 else 2, 'exotic_numbers': True, 'exotic_strings': True,
@@ -112,6 +155,10 @@ def run_shard(spec, ctx):
             continue
         ctx.feature('depth_%d' % depth)
         check_program(ctx, p, src, 'program')
+        if i % 3 == 0:
+            if poison_parser(rng, shared, p):
+                ctx.feature('failed_parse_before_reuse')
+            reuse_parser(ctx, rng, shared, p, src)
         if i == 0:
             ctx.sample({'source': src[:240]})
 
@@ -165,6 +212,8 @@ def gates(m, tier):
               'semicolon', 'paren-statement-guard', 'qprint-parens', 'qprint-string'):
         if f.get(k, 0) < 5:
             missed.append('%s seen %d times' % (k, f.get(k, 0)))
+    if mon.get('reused_parser_parses', 0) < 200 or f.get('failed_parse_before_reuse', 0) < 50:
+        missed.append('parser reuse: %d parses, %d after a failed parse' % (mon.get('reused_parser_parses', 0), f.get('failed_parse_before_reuse', 0)))
     if mon.get('trees_compared', 0) < 1000:
         missed.append('trees compared: %d' % mon.get('trees_compared', 0))
     return missed
